@@ -32,6 +32,16 @@ func (c *Core) VerifBarriers() map[string]barrier.SecurityBarrier {
 }
 func (c *Core) VerifTokenStore() *TokenStore        { return c.tokenStore }
 
+// VerifNamespaceRootToken mints the kind of token root generation for a
+// namespace hands out: a token of namespace ns holding the root policy.
+func (c *Core) VerifNamespaceRootToken(ns *namespace.Namespace) (string, error) {
+	te, err := c.tokenStore.rootToken(namespace.ContextWithNamespace(namespace.RootContext(context.Background()), ns))
+	if err != nil {
+		return "", err
+	}
+	return te.ExternalID, nil
+}
+
 // VerifSetExpireRecorder replaces the lease-expiry strategy: a lease whose
 // timer fires is handed to rec instead of the revocation workers, so the
 // harness can run the revocation as an explicit step.
